@@ -31,6 +31,7 @@ def run(check, pool, Task):
     W.run_arrays(check, pool, Task, 'C17', allq, derivs=['identity'], dtypes=('float64',), flags='nan', bases=bases, inert=True, label='inert')
     W.run_arrays(check, pool, Task, 'C17', allq, derivs=['slice[1:]', 'take_fill[0,NA,2]'] if thorough else ['slice[1:]'], dtypes=('float64',), flags='nan', inert=True, label='inert')
     W.run_point_intersects(check, pool, Task, 'C17')
+    W.run_point_intersects_inert(check, pool, Task, 'C17')
     # spatial index and cx with NaN rows
     cap = 900
     tasks = []
